@@ -19,6 +19,7 @@ func init() {
 			{ID: "C18.R3", Floor: 4, Doc: "newFramer flag iff compressor; readFrame decompresses iff flag, nil-check, error propagation", Run: c18r3},
 			{ID: "C18.R4", Floor: 2, Doc: "negotiation against SUPPORTED; compressor cleared whenever COMPRESSION is not sent", Run: c18r4},
 			{ID: "C18.R5", Floor: 5, Doc: "lz4 length-prefix agreement between Encode and Decode; no multiplication of lengths in 32-bit types", Run: c18r5},
+			{ID: "C18.R6", Floor: 1, Doc: "finish(): on every path that returns success the header announces compression exactly when the body was replaced by the compressor output", Run: c18r6},
 		},
 		NeedsLZ4: true,
 	})
@@ -105,6 +106,17 @@ func c18r2(p *Program, r *Report) {
 		case *ast.CallExpr:
 			if calleeName(info, s) == "Compressor.Encode" && len(s.Args) == 1 {
 				encArg = exprStr(s.Args[0])
+				// a local that names the body slice
+				if id, ok := ast.Unparen(s.Args[0]).(*ast.Ident); ok {
+					ast.Inspect(fi.Decl.Body, func(y ast.Node) bool {
+						if as, ok := y.(*ast.AssignStmt); ok && len(as.Lhs) == 1 && len(as.Rhs) == 1 {
+							if lid, ok := as.Lhs[0].(*ast.Ident); ok && info.Defs[lid] != nil && info.Defs[lid] == info.Uses[id] {
+								encArg = exprStr(as.Rhs[0])
+							}
+						}
+						return true
+					})
+				}
 			}
 		case *ast.AssignStmt:
 			if len(s.Lhs) == 1 && exprStr(s.Lhs[0]) == "f.buf" {
